@@ -250,4 +250,181 @@ theorem host_step_good (a : Anim) (g : Grid) (cols rows : Nat) (hg : ShapedL g c
       · exact goodg_setLine _ _ _ _ _ hg
       · exact goodg_setRow _ _ _ _ _ _ hg
 
+/-! ## termination -/
+
+/-- `n` forced steps of a generic step function, stopping when inactive -/
+def stepsG (stp : Anim → Grid → Anim × Grid) : Nat → Anim × Grid → Anim × Grid
+  | 0, s => s
+  | n + 1, (a, g) => if a.active then stepsG stp n (stp a g) else (a, g)
+
+theorem stepsG_inactive (stp : Anim → Grid → Anim × Grid) (n : Nat) (a : Anim) (g : Grid) (h : a.active = false) :
+    stepsG stp n (a, g) = (a, g) := by
+  cases n <;> simp [stepsG, h]
+
+/-- a measure that strictly decreases along active steps (under an invariant) bounds the number of steps -/
+theorem stepsG_done (stp : Anim → Grid → Anim × Grid) (I : Anim → Prop) (μ : Anim → Nat)
+    (hstep : ∀ a g, I a → a.active = true →
+      (stp a g).1.active = false ∨ (I (stp a g).1 ∧ μ (stp a g).1 < μ a)) :
+    ∀ n a g, I a → μ a < n → (stepsG stp n (a, g)).1.active = false := by
+  intro n
+  induction n with
+  | zero => intro a g _ h; omega
+  | succ n ih =>
+    intro a g hI hμ
+    cases ha : a.active
+    · rw [stepsG_inactive _ _ _ _ ha]; exact ha
+    · simp only [stepsG, ha, if_true]
+      rcases hstep a g hI ha with h | ⟨h1, h2⟩
+      · have : stp a g = ((stp a g).1, (stp a g).2) := rfl
+        rw [this, stepsG_inactive _ _ _ _ h]; exact h
+      · have : stp a g = ((stp a g).1, (stp a g).2) := rfl
+        rw [this]
+        exact ih _ _ h1 (by omega)
+
+def fwStp (cols : Nat) (a : Anim) (g : Grid) : Anim × Grid := ((Fw.step a g cols).1, (Fw.step a g cols).2.grid)
+def hostStp (cols : Nat) (a : Anim) (g : Grid) : Anim × Grid := Host.step a g cols
+
+/-- a step keeps the configuration fields -/
+def Keeps (stp : Anim → Grid → Anim × Grid) : Prop :=
+  ∀ a g, (stp a g).1.style = a.style ∧ (stp a g).1.loop = a.loop ∧ (stp a g).1.text = a.text
+
+theorem keeps_fw (cols : Nat) : Keeps (fwStp cols) := fun a g =>
+  ⟨(fw_step_fields a g cols).2.2.2.2.1, (fw_step_fields a g cols).2.2.1, (fw_step_fields a g cols).2.2.2.2.2⟩
+
+theorem keeps_host (cols : Nat) : Keeps (hostStp cols) := fun a g =>
+  ⟨(host_step_fields a g cols).2.2.2.2.1, (host_step_fields a g cols).2.2.1, (host_step_fields a g cols).2.2.2.2.2⟩
+
+/-! ### scroll -/
+
+def ScrollSpec (stp : Anim → Grid → Anim × Grid) (text : List Char) (L : Nat) : Prop :=
+  ∀ a g, a.style = .scroll → a.loop = false → a.text = text → 0 ≤ a.offset → a.offset < (L : Int) →
+    (stp a g).1.offset = a.offset + 1 ∧ (a.offset + 1 ≥ (L : Int) → (stp a g).1.active = false)
+
+theorem scroll_done (stp : Anim → Grid → Anim × Grid) (hk : Keeps stp) (text : List Char) (L : Nat)
+    (hs : ScrollSpec stp text L) (a : Anim) (g : Grid) (hst : a.style = .scroll) (hl : a.loop = false)
+    (ht : a.text = text) (ho : a.offset = 0) (hL : 0 < L) : (stepsG stp L (a, g)).1.active = false := by
+  apply stepsG_done stp
+    (fun a => a.style = .scroll ∧ a.loop = false ∧ a.text = text ∧ 0 ≤ a.offset ∧ a.offset < (L : Int))
+    (fun a => ((L : Int) - 1 - a.offset).toNat)
+  · intro a g ⟨h1, h2, h3, h4, h5⟩ _
+    obtain ⟨k1, k2, k3⟩ := hk a g
+    obtain ⟨s1, s2⟩ := hs a g h1 h2 h3 h4 h5
+    by_cases hge : a.offset + 1 ≥ (L : Int)
+    · exact Or.inl (s2 hge)
+    · refine Or.inr ⟨⟨by rw [k1, h1], by rw [k2, h2], by rw [k3, h3], by omega, by omega⟩, ?_⟩
+      show ((L : Int) - 1 - (stp a g).1.offset).toNat < ((L : Int) - 1 - a.offset).toNat
+      omega
+  · exact ⟨hst, hl, ht, by omega, by omega⟩
+  · show ((L : Int) - 1 - a.offset).toNat < L
+    omega
+
+theorem fw_scroll_spec (text : List Char) (cols : Nat) (hc : 0 < cols) :
+    ScrollSpec (fwStp cols) text (max text.length cols + cols) := by
+  intro a g hst hl ht h0 h1
+  have hpl : (a.text ++ List.replicate (cols - a.text.length) ' ' ++ List.replicate cols ' ').length =
+      max text.length cols + cols := by
+    simp only [List.length_append, List.length_replicate, ht]; omega
+  have hne : ¬ (max text.length cols + cols = 0) := by have := hc; omega
+  have hge : ¬ (a.offset ≥ Int.ofNat (max text.length cols + cols)) := by
+    simp only [Int.ofNat_eq_natCast]; omega
+  unfold fwStp Fw.step
+  simp only [hst, hpl, hl, hne, hge, if_false]
+  by_cases hk : a.offset.toNat + 1 ≥ max text.length cols + cols
+  · simp only [hk, if_true, Bool.false_eq_true, if_false]
+    exact ⟨by simp only [Int.ofNat_eq_natCast]; omega, fun _ => trivial⟩
+  · simp only [hk, if_false]
+    exact ⟨by simp only [Int.ofNat_eq_natCast]; omega, fun h => by omega⟩
+
+theorem host_scroll_spec (text : List Char) (cols : Nat) (hc : 0 < cols) :
+    ScrollSpec (hostStp cols) text (text.length + cols) := by
+  intro a g hst hl ht h0 h1
+  have hpl : (a.text ++ List.replicate cols ' ').length = text.length + cols := by
+    simp only [List.length_append, List.length_replicate, ht]
+  have hne : ¬ (text.length + cols = 0) := by have := hc; omega
+  unfold hostStp Host.step
+  simp only [hst, hpl, hl, hne, if_false]
+  by_cases hk : a.offset.toNat + 1 ≥ text.length + cols
+  · simp only [hk, if_true, Bool.false_eq_true, if_false]
+    exact ⟨by simp only [Int.ofNat_eq_natCast]; omega, fun _ => trivial⟩
+  · simp only [hk, if_false]
+    exact ⟨by simp only [Int.ofNat_eq_natCast]; omega, fun h => by omega⟩
+
+/-! ### blink -/
+
+def BlinkSpec (stp : Anim → Grid → Anim × Grid) : Prop :=
+  ∀ a g, a.style = .blink → a.loop = false → a.shown = true → (stp a g).1.active = false
+
+theorem blink_done (stp : Anim → Grid → Anim × Grid) (hs : BlinkSpec stp) (a : Anim) (g : Grid)
+    (hst : a.style = .blink) (hl : a.loop = false) (hsh : a.shown = true) :
+    (stepsG stp 1 (a, g)).1.active = false := by
+  apply stepsG_done stp (fun a => a.style = .blink ∧ a.loop = false ∧ a.shown = true) (fun _ => 0)
+  · intro a g ⟨h1, h2, h3⟩ _
+    exact Or.inl (hs a g h1 h2 h3)
+  · exact ⟨hst, hl, hsh⟩
+  · show 0 < 1
+    omega
+
+theorem fw_blink_spec (cols : Nat) : BlinkSpec (fwStp cols) := by
+  intro a g hst hl hsh
+  unfold fwStp Fw.step
+  simp [hst, hl, hsh]
+
+theorem host_blink_spec (cols : Nat) : BlinkSpec (hostStp cols) := by
+  intro a g hst hl hsh
+  unfold hostStp Host.step
+  simp [hst, hl, hsh]
+
+/-! ### typewriter -/
+
+def TwSpec (stp : Anim → Grid → Anim × Grid) (text : List Char) : Prop :=
+  ∀ a g, a.style = .typewriter → a.loop = false → a.text = text → 0 ≤ a.visible →
+    (a.visible + 1 ≥ (text.length : Int) → (stp a g).1.active = false) ∧
+    (a.visible + 1 < (text.length : Int) → (stp a g).1.visible = a.visible + 1)
+
+theorem tw_done (stp : Anim → Grid → Anim × Grid) (hk : Keeps stp) (text : List Char)
+    (hs : TwSpec stp text) (a : Anim) (g : Grid) (hst : a.style = .typewriter) (hl : a.loop = false)
+    (ht : a.text = text) (hv : a.visible = ((min text.length 1 : Nat) : Int)) :
+    (stepsG stp (max (text.length - 1) 1) (a, g)).1.active = false := by
+  apply stepsG_done stp
+    (fun a => a.style = .typewriter ∧ a.loop = false ∧ a.text = text ∧ 0 ≤ a.visible)
+    (fun a => ((text.length : Int) - 1 - a.visible).toNat)
+  · intro a g ⟨h1, h2, h3, h4⟩ _
+    obtain ⟨k1, k2, k3⟩ := hk a g
+    obtain ⟨s1, s2⟩ := hs a g h1 h2 h3 h4
+    by_cases hge : a.visible + 1 ≥ (text.length : Int)
+    · exact Or.inl (s1 hge)
+    · have s3 := s2 (by omega)
+      refine Or.inr ⟨⟨by rw [k1, h1], by rw [k2, h2], by rw [k3, h3], by omega⟩, ?_⟩
+      show ((text.length : Int) - 1 - (stp a g).1.visible).toNat < ((text.length : Int) - 1 - a.visible).toNat
+      omega
+  · exact ⟨hst, hl, ht, by omega⟩
+  · show ((text.length : Int) - 1 - a.visible).toNat < max (text.length - 1) 1
+    omega
+
+theorem fw_tw_spec (text : List Char) (cols : Nat) : TwSpec (fwStp cols) text := by
+  intro a g hst hl ht h0
+  unfold fwStp Fw.step
+  simp only [hst, hl, ht, Int.ofNat_eq_natCast]
+  refine ⟨fun h => ?_, fun h => ?_⟩
+  · split
+    · rfl
+    · split
+      · simp only [Bool.not_false, and_true]
+        rw [if_pos (by omega)]
+      · simp
+  · rw [if_neg (by omega), if_pos (by omega)]
+
+theorem host_tw_spec (text : List Char) (cols : Nat) : TwSpec (hostStp cols) text := by
+  intro a g hst hl ht h0
+  unfold hostStp Host.step
+  simp only [hst, hl, ht, Int.ofNat_eq_natCast]
+  refine ⟨fun h => ?_, fun h => ?_⟩
+  · split
+    · rfl
+    · split
+      · simp only [Bool.not_false, and_true]
+        rw [if_pos (by omega)]
+      · simp
+  · rw [if_neg (by omega), if_pos (by omega)]
+
 end Reduino.Lemmas.C18
